@@ -64,6 +64,10 @@ def execute(case):
                    root_by_oid=case.get("root_by_oid", False), decline=case.get("decline"),
                    prioritize=_prio_fn(case.get("prio")), smart=case.get("smart", False))
         s.auto_names = case.get("auto") or []
+        if case.get("coarse"):
+            # coarse wall clock (the low-resolution timer state.py's mark_changed talks about): time.time() returns the same
+            # value until the schedule advances the clock (T tokens, quiescence rounds, sleeps)
+            s.clk.eps = 0.0
         base = case["base"]
         if isinstance(base, str):
             base = BASES[base]
@@ -134,7 +138,7 @@ def _strip(ev):
 
 
 def _short(case):
-    return {k: v for k, v in case.items() if k in ("flavor", "base", "tokens", "resolver", "family", "aging", "kase", "prio", "mangle", "smart", "auto", "base_side")}
+    return {k: v for k, v in case.items() if k in ("flavor", "base", "tokens", "resolver", "family", "aging", "kase", "prio", "mangle", "smart", "auto", "base_side", "coarse")}
 
 
 # ---- seeded random histories (deeper than the exhaustive family) -------------------------------------------
